@@ -474,7 +474,12 @@ fn op_c17_compounds(req: &Value) -> Value {
     let prefixes = [-24, -21, -18, -15, -12, -9, -6, -3, -2, -1, 0, 0, 0, 1, 2, 3, 6, 9, 12, 15, 18, 21, 24];
 
     for i in 0..count {
-        let n = rng.range(1, 6) as usize;
+        // mostly 1-6 units; now and then none at all (the empty unit) or dozens
+        let n = match rng.below(100) {
+            0 => 0,
+            1 | 2 => rng.range(20, 60) as usize,
+            _ => rng.range(1, 6) as usize,
+        };
         let mut parts: Vec<(String, i64, i64)> = Vec::new();
         for _ in 0..n {
             let k = keys[rng.below(keys.len() as u64) as usize].clone();
@@ -866,6 +871,11 @@ fn handle(st: &mut State, req: &Value) -> Value {
 }
 
 fn main() {
+    // With RUST_LOG set a logger is installed, exactly as the `any` binary does: whether log output is enabled must not
+    // change any result (lazily evaluated log arguments with side effects; seed C03-e). Output goes to stderr.
+    if std::env::var_os("RUST_LOG").is_some() {
+        let _ = pretty_env_logger::try_init();
+    }
     vharness::install_quiet_panic_hook();
     let stdin = std::io::stdin();
     let stdout = std::io::stdout();
